@@ -8,6 +8,7 @@ import (
 	"encoding/json"
 	"fmt"
 	"os"
+	"regexp"
 	"sort"
 	"strconv"
 	"strings"
@@ -23,6 +24,8 @@ var menu = []string{
 	"addtag:mark/x=cport:1", "addtag:bad=cport:1", "addtag:tag/=cport:1", "addtag:tag/s=tag:s", "addtag:tag/d=tag:zz", "addtag:tag/e=cport:(",
 	"addtag:service/v=sport:80", "addtag:tag/t=ltime:-1h:",
 	// references made inside a sub-query are references too
+	// an edit that makes a reference chain of depth two / three (the edit walks the graph, adding a tag does not)
+	"updtag:tag/t=tag:b", "updtag:tag/t=-tag:c", "updtag:tag/c=tag:b",
 	"addtag:tag/q=@x:tag:a", "updtag:tag/a=tag:q", "updtag:tag/q=@x:tag:b", "deltag:tag/q",
 	"updtag:tag/a=tag:b", "updtag:tag/a=tag:zz", "updtag:tag/a=sport:80", "updtag:tag/b=cport:2", "updtag:tag/zz=cport:1", "updtag:tag/a=tag:a", "updtag:tag/b=tag:c", "updtag:mark/m=cport:1",
 	"color:tag/a=#123456", "color:tag/zz=#123456",
@@ -50,11 +53,36 @@ func tagDump(st manager.VerifState) string {
 	return sb.String()
 }
 
+var refRe = regexp.MustCompile(`(?:^|[^A-Za-z0-9_])(tag|service|mark|generated):([A-Za-z0-9_]+)`)
+
+// refsOfDefinition reads the tags a definition refers to from its text (the menu's definitions are
+// simple enough for a token scan), independent of the feature lists the service keeps per tag.
+func refsOfDefinition(def string) []string {
+	seen := map[string]bool{}
+	var out []string
+	for _, m := range refRe.FindAllStringSubmatch(def, -1) {
+		n := m[1] + "/" + m[2]
+		if !seen[n] {
+			seen[n] = true
+			out = append(out, n)
+		}
+	}
+	sort.Strings(out)
+	return out
+}
+
 // graphCheck: no dangling reference, no cycle, referencedBy mirrors the definitions.
 func graphCheck(st manager.VerifState, infos []manager.TagInfo) []string {
 	var out []string
 	byName := map[string]manager.VerifTag{}
-	for _, t := range st.Tags {
+	for i, t := range st.Tags {
+		// the references are those of the definition as written; what the service derived from it must agree
+		fromText := refsOfDefinition(t.Definition)
+		if strings.Join(fromText, ",") != strings.Join(t.ReferencedTags, ",") {
+			out = append(out, fmt.Sprintf("referenced-tags: tag %s is defined as %q, which refers to %v; the service works with the references %v", t.Name, t.Definition, fromText, t.ReferencedTags))
+		}
+		st.Tags[i].ReferencedTags = fromText
+		t.ReferencedTags = fromText
 		byName[t.Name] = t
 	}
 	refBy := map[string][]string{}
